@@ -272,6 +272,12 @@ def run_case(rig, snap, case, rnd, st=None, lines=None):
         except Timeout:
             fails.append(("c12:frame-time-bound", "the session did not finish the stream within %d s" % RUN_TIMEOUT_S))
             return fails
+        if (res.get("run_escaped") or "").startswith("SessionHung"):
+            # the session THREAD never finished (every session is a thread of its own, as in KmipServer): whatever it
+            # waits for - a lock an earlier session never gave back - no framed request of it gets its one response
+            fails.append(("c12:session-hung", "%s; responses received: %d of %d framed requests"
+                          % (res["run_escaped"], len(res.get("out") or []), len(spec))))
+            return fails
         obs = observe(rig, res)
         for o in obs:
             if o["k"] == "handled" and o["frame"] not in verdicts:
@@ -473,7 +479,9 @@ def check_recv(ctx, rig, rnd, n):
     # a failed TLS handshake: no message loop at all, the connection is closed
     frame = G.encode_request(G.mkreq(12, [{"op": "query", "bid": None, "crypto": None, "functions": [1]}]))
     hs = rig.run_session([frame], S.make_cert(), handshake_ok=False, digests=False)
-    if hs["iterations"] or hs["out"] or not hs["closed"] or hs["run_escaped"]:
+    if (hs.get("run_escaped") or "").startswith("SessionHung"):
+        pass        # reported where it happened (c12:session-hung)
+    elif hs["iterations"] or hs["out"] or not hs["closed"] or hs["run_escaped"]:
         ctx.report("c12:served-without-handshake", "requests were served although the TLS handshake failed",
                    {"kind": "handshake", "frame": frame.hex()})
     lines.append(json.dumps({"cmd": "run", "tls": True, "cert": S.cert_json({"cns": 1, "eku": "client"}), "plugins": [],
